@@ -7,7 +7,7 @@ from ..errors import AnalysisError
 from ..interp import Cat, ClassRef, Closure, Hooks, Interp, Intrinsic, Obj, SimRaise
 from ..model import own_nodes
 from ..nf import Rat
-from . import solvers
+from . import solverkit, solvers
 from .c13 import SdeintHooks, eval_sdeint
 from . import c19
 
@@ -79,6 +79,69 @@ def r09_1(ctx):
               f"sdeint_adjoint(extra=True) returns `{out_b}`", "returns the Function's (ys, extras) through parse_return")
     ctx._cache["adjoint_apply_args"] = hb.apply_args
     ctx.floor("R09.1", 4)
+
+
+def r09_6(ctx):
+    """'Only the tensors asked for receive gradients.'  Everything differentiable that sdeint_adjoint computes from the
+    SDE *outside* the autograd Function is tracked by ordinary autograd, which knows nothing of adjoint_params: if such a
+    value is handed to the Function as a tensor input, the cotangent the backward pass returns for it is pushed on into
+    every parameter the SDE's methods touch.  The initial extra solver state is such a value; for each forward solver
+    class its init_extra_solver_state is evaluated on the opaque SDE, and it is a violation if the state contains drift or
+    diffusion evaluations while the entry point computes it outside `.apply` and passes it in."""
+    rep, model = ctx.rep, ctx.model
+    rep.rule("R09.6", "no SDE evaluation that reaches the adjoint Function as a tensor input is made outside it (only "
+                      "adjoint_params and y0 receive gradients)")
+    from . import steps
+    fi_b = model.func(ADJOINT, "sdeint_adjoint")
+    hb = SdeintHooks()
+    it = Interp(model, hb)
+    ts = Obj("ts", getitem_hook=lambda i, o, idx, n, f: nf.sym(f"ts[{idx}]", True))
+    kw = dict(sde=Obj("user-sde", attrs={"__is_module__": True}), y0=nf.sym("y0"), ts=ts, bm=Obj("bm"), method="midpoint",
+              adjoint_method=None, dt=nf.sym("dt", True), adaptive=False, adjoint_adaptive=True, rtol=nf.sym("rtol", True),
+              adjoint_rtol=nf.sym("adjoint_rtol", True), atol=nf.sym("atol", True), adjoint_atol=nf.sym("adjoint_atol", True),
+              dt_min=nf.sym("dt_min", True), options=None, adjoint_options=None, adjoint_params=None, names=None,
+              logqp=False, extra=True, extra_solver_state=None)
+    it.call_function(fi_b, [], kw)
+    rep.analysed(fi_b)
+    # does a value computed by init_extra_solver_state outside the Function reach .apply?
+    outside = False
+    for args in hb.apply_args:
+        for a in args:
+            vals = a if isinstance(a, (list, tuple)) else [a]
+            for v in vals:
+                if isinstance(v, Rat) and any(t[0] == "fn" and t[1] == "INIT" for t in nf.all_atoms(v)):
+                    outside = True
+    dom = solvers.Domains(model)
+    seen = {}
+    for sc in steps.scenarios(model, dom):
+        if sc.cls.name in seen:
+            continue
+        init = model.lookup_method(sc.cls, "init_extra_solver_state")
+        t0, y0 = nf.sym("t0", True), nf.sym("y0")
+        sde = solverkit.make_sde()
+        so = solverkit.solver_obj(model, sc.cls, sde, solverkit.make_bm(), dict(sc.options))
+        it2 = Interp(model, solverkit.StepHooks(2))
+        try:
+            ex = it2.call_function(init, [so, t0, y0], {})
+        except SimRaise:
+            ex = ()
+        atoms = set()
+        for x in (ex or ()):
+            if isinstance(x, Rat):
+                atoms |= {a[1] for a in nf.all_atoms(x) if a[0] == "fn"}
+        seen[sc.cls.name] = (init, sorted(atoms & {"F", "G"}))
+    if len(seen) < 8:
+        raise AnalysisError(f"R09.6 found only {sorted(seen)} forward solver classes")
+    for name, (init, evals) in sorted(seen.items()):
+        bad = outside and bool(evals)
+        rep.check(not bad, "R09.6", astq.loc(fi_b), f"{fi_b.key}::R09.6::extras-outside-function::{name}",
+                  f"sdeint_adjoint computes {name}.init_extra_solver_state(ts[0], y0) -- which evaluates {evals} of the SDE -- "
+                  f"outside the autograd Function and passes the result in as tensor inputs: the backward pass returns their "
+                  f"cotangents and ordinary autograd pushes them into every parameter those evaluations touch, whether or not "
+                  f"it is in adjoint_params (method={name!r} solver: a parameter that was not asked for receives a partial, "
+                  f"meaningless gradient instead of None)",
+                  "no SDE evaluation outside the Function" if not evals else "evaluated inside the Function")
+    ctx.floor("R09.6", 8)
 
 
 def r09_2(ctx):
@@ -413,6 +476,7 @@ def run(ctx):
     ctx.guard(r09_2)
     ctx.guard(r09_4)
     ctx.guard(r09_5)
+    ctx.guard(r09_6)
     # "gradients converge to the true gradient": the adjoint vector fields integrated by the backward solve are the
     # prescribed ones in every (sde_type, noise_type) cell (rules of C11)
     from . import c11
